@@ -38,7 +38,7 @@ def candidates(rng, n):
                 E2 = copy.deepcopy(E)
                 E2["id"], E2["name"], E2["perr"], E2["phf"] = did, "E%d" % did, perr, phf
                 # the error type / function may be written relative to the enum itself
-                E2["perr_form"] = (did % 7) if perr else 0
+                E2["perr_form"] = (did % 8) if perr else 0
                 E2["via_macro"] = E2["perr_form"] == 0 and did % 2 == 1
                 cands.append(E2)
                 did += 1
@@ -57,6 +57,9 @@ def module(E):
         src += "impl%s %s%s%s { pub fn make_err(s: &str) -> UserErr { user_err(s) } }\n" % (g.get("impl_decl", g["decl"]), E["name"], tg, g.get("where", ""))
     elif form == 3:
         src = src.replace("parse_err_fn = user_err", "parse_err_fn = UserErr::from")        # impl From<&str> for UserErr
+    elif form == 7:
+        # `::core::..` is rooted at the crate list: a local module called `core` must not be looked at
+        src = src.replace("parse_err_fn = user_err", "parse_err_fn = ::core::convert::From::from") + "pub mod core { pub mod convert {} }\n"
     elif form == 5:
         src = src.replace("parse_err_fn = user_err", "parse_err_fn = err_into")               # generic in the return type
     elif form == 6:
